@@ -17,6 +17,9 @@ exactly like the Go maps, so a collision behaves here as it does there. The tree
 path are those of Model/Radix.
 
 Core Lean only.
+
+Constants that mirror literals of the Go source are named defs (`@[reducible]`), tied to the regenerated
+`Gen/Consts.lean` by `Tie/Consts*.lean` (added by the owner of extract/; behaviour unchanged).
 -/
 namespace Rivaas.Compiler
 open Rivaas.Route Rivaas.Radix
@@ -166,6 +169,23 @@ def RC.add (hash : Bytes → Nat) (rc : RC) (r : CRoute) : RC :=
 
 def minRoutesForIndexing : Nat := 10
 
+/-- `len(rc.staticRoutes) < 10` in LookupStatic: below it the bloom filter is skipped -/
+@[reducible] def staticDirectThreshold : Nat := 10
+/-- `len(table.routes) < 10` in (*CompiledRouteTable).getRoute / getRouteWithPath -/
+@[reducible] def tableDirectThreshold : Nat := 10
+/-- `var segments [16]string` in matchAndExtract -/
+@[reducible] def maxSegments : Nat := 16
+/-- inline parameter slots (`i < 8` in matchAndExtract) -/
+@[reducible] def inlineSlots : Nat := 8
+/-- `defaultBloomFilterSize`, `defaultBloomHashFunctions` of router.go -/
+@[reducible] def defaultBloomFilterSize : Nat := 1000
+@[reducible] def defaultBloomHashFunctions : Nat := 3
+/-- `optimalBloomFilterSize`: bits per route and the two clamps; `max(bloomFilterSize, 100)` of compileStaticRoutes -/
+@[reducible] def bloomBitsPerRoute : Nat := 10
+@[reducible] def bloomMinSize : Nat := 100
+@[reducible] def bloomMaxSize : Nat := 1000000
+@[reducible] def tableBloomMinSize : Nat := 100
+
 /-- `Freeze()` -/
 def RC.freeze (rc : RC) : RC :=
   { rc with hasIndex := rc.hasIndex || decide (minRoutesForIndexing ≤ rc.dynamic.length),
@@ -183,7 +203,7 @@ def RC.lookupStatic (hash : Bytes → Nat) (rc : RC) (method path : Bytes) : Opt
   if !rc.hasStatic then none
   else
     let h := hash (method ++ path)
-    if rc.staticRoutes.length < 10 then mapGet h rc.staticRoutes
+    if rc.staticRoutes.length < staticDirectThreshold then mapGet h rc.staticRoutes
     else if !rc.staticBloom.test h then none
     else mapGet h rc.staticRoutes
 
@@ -198,7 +218,7 @@ def countSlashes (s : Bytes) : Nat := (s.filter (· = '/')).length
 
 /-- the single-pass path parsing of the general path: like `getRoute`, the text after a trailing slash
 is not a segment; at most 16 segments -/
-def parseSegs16 (path : Bytes) : List Bytes := (parsePath path).1.take 16
+def parseSegs16 (path : Bytes) : List Bytes := (parsePath path).1.take maxSegments
 
 /-- what a successful match leaves in the context: the inline slots (`paramCount` of them) and the
 overflow map -/
@@ -228,7 +248,7 @@ def paramsWrite (segs : List Bytes) :
   | _, [], slots, over => (slots, over)
   | i, (pos, name, _) :: rest, slots, over =>
     let value := (segs[pos]?).getD []
-    if i < 8 then paramsWrite segs (i + 1) rest (slots ++ [(name, value)]) over
+    if i < inlineSlots then paramsWrite segs (i + 1) rest (slots ++ [(name, value)]) over
     else paramsWrite segs (i + 1) rest slots (SMap.set name value over)
 
 /-- `len(r.staticSegments) > 0 && firstSeg != r.staticSegments[0]` -/
@@ -317,10 +337,10 @@ def countStatic (t : Tree) : Nat :=
 
 /-- `optimalBloomFilterSize` -/
 def optimalBloom (count : Nat) : Nat :=
-  if count = 0 then 1000
-  else if count * 10 < 100 then 100
-  else if count * 10 > 1000000 then 1000000
-  else count * 10
+  if count = 0 then defaultBloomFilterSize
+  else if count * bloomBitsPerRoute < bloomMinSize then bloomMinSize
+  else if count * bloomBitsPerRoute > bloomMaxSize then bloomMaxSize
+  else count * bloomBitsPerRoute
 
 /-- `compileStaticRoutesRecursive(table, "")`: only `staticPaths` entries qualify (a node reached through
 edges carries a path with a `:`) -/
@@ -331,20 +351,20 @@ def fillTable (hash : Bytes → Nat) (t : Tree) (tb : Table) : Table :=
 
 /-- `compileRoutesForMethod` + `compileStaticRoutes`: the table hung on a main-tree root at warm-up -/
 def mainTable (hash : Bytes → Nat) (bloomSize bloomK : Nat) (t : Tree) : Table :=
-  let size := if bloomSize = 1000 then optimalBloom (countStatic t) else bloomSize
-  fillTable hash t ⟨[], Bloom.new (max size 100) bloomK⟩
+  let size := if bloomSize = defaultBloomFilterSize then optimalBloom (countStatic t) else bloomSize
+  fillTable hash t ⟨[], Bloom.new (max size tableBloomMinSize) bloomK⟩
 
 /-- `compileVersionRoutes` for one (version, method) tree: `none` when no table is stored -/
 def versionTable (hash : Bytes → Nat) (bloomSize bloomK : Nat) (t : Tree) : Option Table :=
   if countStatic t = 0 then none
   else
-    let size := if bloomSize = 1000 then optimalBloom (countStatic t) else bloomSize
+    let size := if bloomSize = defaultBloomFilterSize then optimalBloom (countStatic t) else bloomSize
     let tb := fillTable hash t ⟨[], Bloom.new size bloomK⟩
     if tb.routes.isEmpty then none else some tb
 
 /-- `CompiledRouteTable.getRoute` / `getRouteWithPath` -/
 def Table.get (hash : Bytes → Nat) (tb : Table) (path : Bytes) : Option (Bytes × Leaf) :=
-  if tb.routes.length < 10 then mapGet (hash path) tb.routes
+  if tb.routes.length < tableDirectThreshold then mapGet (hash path) tb.routes
   else if !tb.bloom.test (hash path) then none
   else mapGet (hash path) tb.routes
 
@@ -358,10 +378,10 @@ structure Opts where
   versioned : Bool     -- every route is registered in one version tree that every request selects
 deriving DecidableEq, Repr
 
-def Opts.size (o : Opts) : Nat := if o.bloomSize = 0 then 1000 else o.bloomSize
-def Opts.k (o : Opts) : Nat := if o.bloomK = 0 then 3 else max 1 (min o.bloomK 10)
+def Opts.size (o : Opts) : Nat := if o.bloomSize = 0 then defaultBloomFilterSize else o.bloomSize
+def Opts.k (o : Opts) : Nat := if o.bloomK = 0 then defaultBloomHashFunctions else max 1 (min o.bloomK 10)
 
-def RC.empty : RC := ⟨[], Bloom.new 1000 3, [], false, false⟩
+def RC.empty : RC := ⟨[], Bloom.new defaultBloomFilterSize defaultBloomHashFunctions, [], false, false⟩
 
 /-- `RegisterRoute` for a main-tree route, compiler part -/
 def rcRegister (hash : Bytes → Nat) (rc : RC) (rid : Nat) (g : Reg) : RC :=
